@@ -131,14 +131,40 @@ def check(ck):
                 ctor.append((n, c))
     ck.require(len(ctor) == 2, "C07.5", "%s: constructor calls" % q.fn(fl), "two (list / dict arguments)",
                "expected json_class(*params) and json_class(**params), found %d constructor calls" % len(ctor), q.loc(fl, fl.node))
+    from vlib.flow import Explorer
+    exl = Explorer(gl)
+    alias = {}
+    for m in gl.live_nodes():
+        if m.kind == "stmt" and isinstance(m.ast, ast.Assign) and isinstance(m.ast.targets[0], ast.Name) and isinstance(m.ast.value, ast.Call) \
+                and dump(m.ast.value.func) == "isinstance" and dump(m.ast.value.args[0]) == "params":
+            alias[m.ast.targets[0].id] = m.ast.value
     for (n, c) in ctor:
-        kind = None
-        for d in dl[n.id]:
-            b = gl.nodes[d]
-            if b.kind == "branch" and b.polarity and isinstance(b.test, ast.Call) and dump(b.test.func) == "isinstance" \
-                    and dump(b.test.args[0]) == "params":
-                ts = prog.typeset("jsonclass", b.test.args[1])
-                kind = "list" if ts == {"list"} else ("dict" if ts == {"dict"} else kind)
+        kinds = set()
+        for st_ in exl.states:
+            if st_[0] != n.id:
+                continue
+            universe = set(["list", "dict", "<other>"])
+            before = exl.parent.get(st_)          # facts holding just before the call (the call itself drops heap facts)
+            for (key, pol) in (before[1] if before is not None else st_[1]):
+                texpr = None
+                if key in alias:
+                    texpr = alias[key]
+                elif key.startswith("isinstance(params,"):
+                    try:
+                        texpr = ast.parse(key).body[0].value
+                    except SyntaxError:
+                        texpr = None
+                if texpr is None:
+                    continue
+                ts = prog.typeset("jsonclass", texpr.args[1])
+                if ts is None:
+                    continue
+                if pol:
+                    universe &= set(ts)
+                else:
+                    universe -= set(ts)
+            kinds.add("list" if universe == set(["list"]) else ("dict" if universe == set(["dict"]) else None))
+        kind = next(iter(kinds)) if len(kinds) == 1 else None
         star = [a for a in c.args if isinstance(a, ast.Starred)]
         dstar = [k for k in c.keywords if k.arg is None]
         if kind == "list":
@@ -153,21 +179,21 @@ def check(ck):
     okk = pt is not None and pt == ("item", ("item", ("param", "obj"), ("const", "__jsonclass__")), ("const", 1))
     ck.require(okk, "C07.5", "%s: params = obj['__jsonclass__'][1]" % q.fn(fl), "second descriptor element",
                "constructor arguments are %s, not the second element of the descriptor" % (prov.show(pt) if pt else "?"), q.loc(fl, fl.node))
-    appends = {}
-    for n in gd.live_nodes():
-        for c in node_calls(n):
-            if call_name(c) == "append" and "__jsonclass__" in dump(c.func.value) and c.args:
-                for d in dominators(gd)[n.id]:
-                    b = gd.nodes[d]
-                    if b.kind == "branch" and b.polarity and isinstance(b.test, ast.Call) and dump(b.test.func) in ("utils.is_decimal", "utils.is_enum"):
-                        appends[dump(b.test.func)] = (n, c)
+    dgd = dominators(gd)
     for fn_, want in (("utils.is_decimal", "[str(obj)]"), ("utils.is_enum", "[obj.value]")):
-        if fn_ not in appends:
-            ck.bad("C07.5", "%s: %s branch" % (q.fn(fdump), fn_), "no constructor argument emitted for %s" % fn_, q.loc(fdump, fdump.node))
+        region = [m for m in gd.live_nodes() if any(gd.nodes[i].kind == "branch" and gd.nodes[i].polarity and isinstance(gd.nodes[i].test, ast.Call)
+                                                      and dump(gd.nodes[i].test.func) == fn_ for i in dgd[m.id])]
+        exprs = set()
+        for m in region:
+            for e in __import__("vlib.cfg", fromlist=["node_exprs"]).node_exprs(m):
+                for sub in ast.walk(e):
+                    if isinstance(sub, ast.List) and len(sub.elts) == 1:
+                        exprs.add(dump(sub))
+        if not region:
+            ck.bad("C07.5", "%s: %s branch" % (q.fn(fdump), fn_), "no branch for %s objects" % fn_[9:], q.loc(fdump, fdump.node))
             continue
-        n, c = appends[fn_]
-        ck.require(dump(c.args[0]) == want, "C07.5", "%s: %s branch emits %s" % (q.fn(fdump), fn_, dump(c.args[0])), want,
-                   "%s objects are dumped with constructor arguments %s instead of %s" % (fn_[9:], dump(c.args[0]), want), q.loc(fdump, n))
+        ck.require(want in exprs, "C07.5", "%s: %s branch emits %s" % (q.fn(fdump), fn_, want), want,
+                   "%s objects are dumped with constructor arguments %s instead of %s" % (fn_[9:], sorted(exprs), want), q.loc(fdump, region[0]))
     ck.floor("C07.5", 6)
 
     # ---- C07.7 long-lived objects keep the caller's Config object itself (not a snapshot) ---------------------------------
